@@ -30,6 +30,26 @@ def export_digest(q):
                     "ports": {k: str(v.size) for k, v in cr.ports.items()}, "resources": {k: str(v.value) for k, v in cr.resources.items()},
                     "constraints": [(str(c.lhs), str(c.rhs)) for c in cr.constraints]}
         doc = json.dumps(dump(r.routine))
+    # aggregation as a post-processing stage, with a NESTED dictionary whose composite entry is listed before its components, the
+    # components having different resource types and sharing a target: the exported document must not depend on the process either
+    try:
+        from bartiq.compilation.postprocessing import aggregate_resources
+
+        nested = {"T": {"cost": 2, "anc": 3, "Q": 1}, "cost": {"base": 4}, "anc": {"base": 50}, "Q": {"base": "k"}}
+        for keep in (True, False):
+            st2, r2 = try_compile(q, postprocessing_stages=[aggregate_resources(nested, remove_decomposed=keep)])
+            if st2 != "ok":
+                doc += "aggregate:" + st2
+                continue
+            try:
+                doc += r2.to_qref().model_dump_json()
+            except Exception:
+                def dump2(cr):
+                    return {"name": cr.name, "children": [dump2(c) for c in cr.children.values()],
+                            "resources": {k: (v.type.value, str(v.value)) for k, v in sorted(cr.resources.items())}}
+                doc += json.dumps(dump2(r2.routine))
+    except ImportError as e:
+        doc += "aggregate-unavailable:" + str(e)
     # evaluation with float-typed assignments is part of the observed history-sensitive surface
     try:
         names = sorted(r.routine.input_params)
